@@ -3,6 +3,7 @@ package c18
 import (
 	"bytes"
 	"context"
+	"errors"
 	"fmt"
 	hnet "github.com/cloudwego/hertz/pkg/network"
 	"net"
@@ -18,6 +19,7 @@ import (
 
 	"github.com/cloudwego/hertz/pkg/app"
 	"github.com/cloudwego/hertz/pkg/app/server"
+	"github.com/cloudwego/hertz/pkg/app/server/registry"
 	"github.com/cloudwego/hertz/pkg/common/config"
 	"github.com/cloudwego/hertz/pkg/network/netpoll"
 	"github.com/cloudwego/hertz/pkg/network/standard"
@@ -53,7 +55,18 @@ type Plan struct {
 	Hook        string     `json:"hook"`                       // none, fast, 50ms, most-of-wait, beyond-wait
 	Sense       bool       `json:"sense_client_disconnection"` // standard transport only
 	OnConnectMs int        `json:"on_connect_ms,omitempty"`    // an OnConnect callback that takes this long; a last connection sends its request and is still inside the callback when Shutdown is called
+	Registry    string     `json:"registry,omitempty"`         // "", "ok" or "failing": a service registry whose Deregister succeeds / returns an error at shutdown
 	Conns       []ConnPlan `json:"connections"`
+}
+
+type fakeRegistry struct{ fail bool }
+
+func (r *fakeRegistry) Register(*registry.Info) error { return nil }
+func (r *fakeRegistry) Deregister(*registry.Info) error {
+	if r.fail {
+		return errors.New("registry centre unreachable")
+	}
+	return nil
 }
 
 var sockCounter int32
@@ -183,6 +196,9 @@ func runPlanInner(p *Plan) (msg string, log []string) {
 			opts = append(opts, server.WithSenseClientDisconnection(true))
 		}
 	}
+	if p.Registry != "" {
+		opts = append(opts, server.WithRegistry(&fakeRegistry{fail: p.Registry == "failing"}, &registry.Info{ServiceName: "c18", Weight: 10}))
+	}
 	var onConnectEntered int32
 	dialed := int32(0) // connections this scenario opened so far (each passes through OnConnect once accepted)
 	if p.OnConnectMs > 0 {
@@ -193,6 +209,11 @@ func runPlanInner(p *Plan) (msg string, log []string) {
 		}))
 	}
 	h := server.New(opts...)
+	if p.Registry == "failing" {
+		// known finding D49: Shutdown gives up before the transport is shut down; whatever the scenario
+		// observes, the listener must not outlive it
+		defer h.Close() //nolint:errcheck
+	}
 	entered := make(chan int, 16)
 	release := map[int]chan struct{}{}
 	for i := range p.Conns {
@@ -559,6 +580,7 @@ func genPlan(t *rapid.T, transport string) *Plan {
 	if transport == "standard" {
 		p.Sense = rapid.Bool().Draw(t, "senseClientDisconnection")
 	}
+	p.Registry = rapid.SampledFrom([]string{"", "", "ok", "failing"}).Draw(t, "registry")
 	if rapid.IntRange(0, 3).Draw(t, "slowOnConnect") == 0 {
 		p.OnConnectMs = 40
 	}
@@ -584,6 +606,9 @@ func classify(p *Plan) (bool, []string) {
 	cls := []string{"network-" + p.Network, "transport-" + p.Transport, fmt.Sprintf("wait-%dms", p.WaitMs), "hook-" + p.Hook}
 	if p.Sense {
 		cls = append(cls, "sense-client-disconnection")
+	}
+	if p.Registry != "" {
+		cls = append(cls, "registry-"+p.Registry)
 	}
 	if p.OnConnectMs > 0 {
 		cls = append(cls, "connection-inside-OnConnect-at-shutdown")
@@ -629,12 +654,33 @@ func scenarios(t *testing.T, transport, unit string) {
 			t.Skip(msg)
 		}
 		if msg != "" {
+			if inD49(p, log) && ev.ReportKnown(prop, "D49") {
+				rec.Excluded("D49-Deregister-error-aborts-Shutdown", 1)
+				return
+			}
 			t.Fatalf("%s\nplan: %+v\nhistory:\n  %s", msg, *p, strings.Join(log, "\n  "))
 		}
 		if nt && rec.WantSample() {
 			rec.Sample(p)
 		}
 	})
+}
+
+// inD49: known finding D49 (recorded, not repaired: the pinned TestEngineShutdown requires it). A
+// registry whose Deregister fails makes Engine.Shutdown return that error at once, before the
+// transport is shut down. Only a scenario in which exactly that happened is attributed to the
+// finding: the plan has the failing registry AND the history shows Shutdown returning the registry's
+// error. Any other failure of such a plan, and every failure with a working registry, is reported.
+func inD49(p *Plan, log []string) bool {
+	if p.Registry != "failing" {
+		return false
+	}
+	for _, l := range log {
+		if strings.Contains(l, "Shutdown returned registry centre unreachable") {
+			return true
+		}
+	}
+	return false
 }
 
 func TestC18Standard(t *testing.T) { scenarios(t, "standard", "standard-transport") }
